@@ -65,7 +65,11 @@ class PropertyRun:
                     # a contract with postconditions whose body never returns normally in the encoding: the postconditions would hold vacuously
                     self.engine_faults.append(f"no normal path through {qual}: its postconditions would be vacuous")
             return vcs
-        except (OutOfSubset, ExtractionError) as exc:
+        except (OutOfSubset, ExtractionError, AttributeError, TypeError, KeyError, IndexError, AssertionError, z3.Z3Exception) as exc:
+            # besides the declared subset exits, any failure of the executor on this function's text is 'the code left what pyvc can
+            # process': undecided (the bounded native stand-in decides), never a verdict and never a crash of the whole check
+            if not isinstance(exc, (OutOfSubset, ExtractionError)):
+                exc = OutOfSubset(f"executor could not process the function ({type(exc).__name__}: {exc})")
             if canary:
                 return []
             # obligations generated before the unsupported construct was reached are kept (they concern path prefixes and are
@@ -205,9 +209,13 @@ def _run(pr: PropertyRun, mod) -> int:
         by_canary.setdefault(r.vc.func, []).append(r.status)
     for name, sts in by_canary.items():
         ok = any(s == "sat" for s in sts)
-        pr.canary_results.append({"canary": name, "refuted_as_expected": ok})
-        if not ok:
-            pr.engine_faults.append(f"canary {name} was not refuted ({sts})")
+        proved = all(s == "unsat" for s in sts)
+        pr.canary_results.append({"canary": name, "refuted_as_expected": ok, "statuses": sts})
+        if proved:
+            # a deliberately false clause that verifies: the pipeline is vacuous or unsound -> engine fault
+            pr.engine_faults.append(f"canary {name} was verified instead of refuted ({sts})")
+        elif not ok:
+            print(f"NOTE property={pid} canary {name} inconclusive on this tree ({sorted(set(sts))}): neither refuted nor verified")
 
     refuted = [r for r in main if r.status == "sat"]
     unknown = [r for r in main if r.status not in ("sat", "unsat")]
@@ -223,6 +231,22 @@ def _run(pr: PropertyRun, mod) -> int:
             pr.engine_faults.append(f"{r.vc.name}: {r.status}")
         else:
             pr.undecided.append({"obligation": r.vc.name, "reason": f"solver {r.status}", "loc": r.vc.loc})
+
+    # end-to-end bounded native stand-in (harness/e2e.py): small histories through the real compute_tax against statement-level oracles.
+    # Labelled bounded, never added to the proof counts; a failing history is a real failing input (replayable).
+    e2e_cfg = getattr(mod, "E2E", None)
+    e2e_fail: List[Dict] = []
+    if e2e_cfg is not None:
+        from .replay import run_e2e
+        n = e2e_cfg["thorough" if thorough else "quick"]
+        if (refuted or pr.undecided) and not thorough:
+            n = max(n, e2e_cfg.get("on_doubt", n))        # tie-breaker / witness search gets a larger budget
+        res = run_e2e(pid, n, pr.seed, pr.repo)
+        if res.get("error"):
+            pr.engine_faults.append("e2e stand-in crashed: " + res["error"][-400:])
+        e2e_fail = res.get("failures", [])
+        pr.bounded.append({"name": "e2e_small_histories", "label": "bounded", "bound": f"curated scenarios + {n} seeded random histories of <= 7 transactions (seed {pr.seed})",
+                           "evaluations": res.get("evaluations", 0), "failures": len(e2e_fail)})
 
     # bounded stand-ins / conformance checks of assumed contracts
     bounded_fn = getattr(mod, "bounded", None)
@@ -241,6 +265,26 @@ def _run(pr: PropertyRun, mod) -> int:
     known = load_known_findings()
     violations: List[Dict] = []
     known_hits: List[Dict] = []
+    # every listed finding of this property is replayed natively: it must still fail (otherwise it is stale and suppresses nothing)
+    live = []
+    for kf in known:
+        if kf.get("property") != pid:
+            live.append(kf)
+            continue
+        wit = kf.get("witness")
+        if wit and wit.endswith(".json") and "bounded_region" in kf:
+            from .replay import run_e2e
+            with open(os.path.join(VERIF, wit)) as f:
+                sc = json.load(f)
+            r = run_e2e(pid, 0, 0, pr.repo, scenario=sc)
+            if r.get("failures"):
+                live.append(kf)
+                known_hits.append({"obligation": "witness:" + wit, "finding": kf})
+            else:
+                print(f"NOTE property={pid} known finding {kf.get('id')} no longer reproduces on this tree (stale): it suppresses nothing")
+        else:
+            live.append(kf)
+    known = live
     grouped: Dict[str, List[solve.Result]] = {}
     for r in refuted:
         grouped.setdefault(r.vc.name, []).append(r)
@@ -263,6 +307,33 @@ def _run(pr: PropertyRun, mod) -> int:
                 known_hits.append({"obligation": name, "finding": finding})
             continue
         violations.append(report_violation(pr, mod, name, rs))
+    # failing histories: attributed to a known finding when the history lies in its region, reported otherwise
+    e2e_new = []
+    for f in e2e_fail:
+        fin = None
+        for kf in known:
+            if kf.get("property") == pid and kf.get("bounded_region") in f.get("regions", []):
+                fin = kf
+                break
+        if fin is not None:
+            if not any(h["finding"] is fin for h in known_hits):
+                known_hits.append({"obligation": "bounded:e2e", "finding": fin})
+            else:
+                pass
+        else:
+            e2e_new.append(f)
+    if e2e_new:
+        f = e2e_new[0]
+        info = {"property": pid, "obligation": "bounded:e2e_small_histories", "note": "failing history found by the bounded native stand-in",
+                "failures_found": len(e2e_new), "what": f["what"], "replay": {"desc": {"kind": "e2e", "scenario": f["scenario"]}, "reproduced": True}}
+        path = write_replay(pr, "e2e_witness", info)
+        if violations:
+            # the proof obligations were refuted too: the history is the end-to-end witness of those refutations
+            for v in violations:
+                if not v.get("reproduced"):
+                    v["reproduced"], v["replay"] = True, path
+        else:
+            violations.append({"obligation": "bounded:e2e_small_histories", "replay": path, "reproduced": True})
     for b in bounded_fail:
         finding = match_finding(known, pid, "bounded:" + b["name"])
         if finding is not None:
@@ -271,7 +342,11 @@ def _run(pr: PropertyRun, mod) -> int:
         path = write_replay(pr, "bounded_" + b["name"], {"bounded_check": b})
         violations.append({"obligation": "bounded:" + b["name"], "replay": path, "reproduced": True})
 
+    printed = set()
     for h in known_hits:
+        if id(h["finding"]) in printed:
+            continue
+        printed.add(id(h["finding"]))
         print(f"KNOWN-FINDING: property={pid} {h['finding'].get('what', h['obligation'])}")
     for u in pr.undecided:
         print(f"UNDECIDED property={pid} obligation={u['obligation']} reason={u['reason']}")
